@@ -548,6 +548,47 @@ impl RepositoryState {
 }
 
 
+//------------ Verification hooks (C27, C28) ---------------------------------
+//
+// `RepositoryState` lives in a private module. `RrdpArchive` is re-exported,
+// so the hooks are associated functions of that type.
+
+#[cfg(routinator_verif)]
+impl RrdpArchive {
+    /// Exposes `RepositoryState::parse`.
+    pub fn verif_state_parse(
+        reader: &mut impl io::Read
+    ) -> Result<RepositoryState, io::Error> {
+        RepositoryState::parse(reader)
+    }
+
+    /// Exposes `RepositoryState::compose`.
+    pub fn verif_state_compose(
+        state: &RepositoryState, writer: &mut impl io::Write
+    ) -> Result<(), io::Error> {
+        state.compose(writer)
+    }
+
+    /// Creates a repository state from its fields.
+    #[allow(clippy::too_many_arguments)]
+    pub fn verif_state_new(
+        rpki_notify: uri::Https,
+        session: Uuid,
+        serial: u64,
+        updated_ts: i64,
+        best_before_ts: i64,
+        last_modified_ts: Option<i64>,
+        etag: Option<Bytes>,
+        delta_state: HashMap<u64, rrdp::Hash>,
+    ) -> RepositoryState {
+        RepositoryState {
+            rpki_notify, session, serial, updated_ts, best_before_ts,
+            last_modified_ts, etag, delta_state
+        }
+    }
+}
+
+
 //------------ FallbackTime --------------------------------------------------
 
 /// Parameters for calculating the best-before time of repositories.
